@@ -82,3 +82,28 @@ Proof.
   - destruct m as [|m]; [lia|]. simpl. destruct (step s) as [s1| |]; try assumption.
     apply IH; [assumption|assumption|lia].
 Qed.
+
+(* ---------- the clamped stack index [sidx] of XDROP / PICK / ROLL / REVERSEN is the plain index ---------- *)
+Lemma sidx_eq n (es : list item) : 0 <= n <= zlen es -> sidx n es = Z.to_nat n.
+Proof. intros H. unfold sidx. rewrite Z.min_l by lia. reflexivity. Qed.
+Lemma sidx_beyond n (es : list item) : zlen es < n -> sidx n es = S (length es) /\ (length es < Z.to_nat n)%nat.
+Proof. intros H. unfold sidx, zlen in *. rewrite Z.min_r by lia. split; lia. Qed.
+Lemma sidx_nth n es : 0 <= n -> nth_error es (sidx n es) = nth_error es (Z.to_nat n).
+Proof.
+  intros H. destruct (Z_le_gt_dec n (zlen es)) as [L|G]; [rewrite sidx_eq by lia; reflexivity|].
+  destruct (sidx_beyond n es) as [E Lt]; [lia|]. rewrite E.
+  rewrite (proj2 (nth_error_None es (S (length es)))) by lia. symmetry. apply nth_error_None. lia.
+Qed.
+Lemma sidx_roll n es : 0 <= n -> roll (sidx n es) es = roll (Z.to_nat n) es.
+Proof.
+  intros H. destruct (Z_le_gt_dec n (zlen es)) as [L|G]; [rewrite sidx_eq by lia; reflexivity|].
+  unfold roll. rewrite sidx_nth by assumption. destruct (sidx_beyond n es) as [E Lt]; [lia|].
+  rewrite (proj2 (nth_error_None es (Z.to_nat n))) by lia. reflexivity.
+Qed.
+Lemma sidx_reverse_top n es : 0 <= n -> reverse_top (sidx n es) es = reverse_top (Z.to_nat n) es.
+Proof.
+  intros H. destruct (Z_le_gt_dec n (zlen es)) as [L|G]; [rewrite sidx_eq by lia; reflexivity|].
+  destruct (sidx_beyond n es) as [E Lt]; [lia|]. unfold reverse_top. rewrite E.
+  rewrite (proj2 (Nat.ltb_lt (length es) (S (length es)))) by lia.
+  rewrite (proj2 (Nat.ltb_lt (length es) (Z.to_nat n))) by lia. reflexivity.
+Qed.
